@@ -17,7 +17,7 @@ structure AccInv (b : Builder) : Prop where
   eb : ∀ e, b.eb = some e → EbAcc b.env e
 
 theorem accInv_new {env : Env} (hf : EnvFacts env) : AccInv (Builder.new env) := by
-  refine ⟨hf, ⟨⟨trivial, fun k hk => by simp [Builder.new] at hk, fun h => by simp [Builder.new, Value.isElement] at h, rfl⟩, ?_⟩,
+  refine ⟨hf, ⟨⟨trivial, fun k hk => by simp [Builder.new] at hk, fun h => by simp [Builder.new, Value.isElement] at h, .inr rfl⟩, ?_⟩,
     fun e he => by simp [Builder.new] at he⟩
   simp [ChainAcc, parentStack, Builder.new, Value.isElement, base2]
 
@@ -65,7 +65,7 @@ theorem toParent_chain {b b' : Builder} {env : Env} {st : NsStack}
     rw [hpar] at hc
     obtain ⟨hcur, hp, hrest⟩ := hc
     refine ⟨hp.addKid hcur.close ?_, hrest⟩
-    exact hcur.kind
+    exact kind_nsPair hcur.kind
 
 theorem leave_chain {b b' : Builder} {env : Env} {st : NsStack} (node : Path) (sp : StrSpan)
     (hc : ChainAcc env (b.cur :: b.parents) st) (hr : b.leave node sp = .ok b') :
@@ -350,7 +350,7 @@ theorem chain_zip {env : Env} : ∀ (rest : List Frame) (f : Frame) (st : NsStac
     obtain ⟨hf, hp, hrest⟩ := hc
     have : zipInto f.close (p :: rest) = zipInto (Frame.close { p with rkids := f.close :: p.rkids }) rest := rfl
     rw [this]
-    exact chain_zip rest _ (parentStack f st) ⟨hp.addKid hf.close hf.kind, hrest⟩
+    exact chain_zip rest _ (parentStack f st) ⟨hp.addKid hf.close (kind_nsPair hf.kind), hrest⟩
 
 /-- Whatever `build` accepts from tokens with the tokenizer's lexical classes: the tables keep the
     standing facts and only grow by interning, and every node of the tree is as `TreeAcc` says. -/
